@@ -1,7 +1,71 @@
 import Spec
 import DriverCommon
 /-! specification side of the non-scalar operation families -/
-open DriverCommon
+open DriverCommon Spec
 namespace SpecExtra
-def handle (ws : List String) : Option (Option String) := none
+
+/-- parse history tokens into abstract quire operations (`none` on a malformed line) -/
+def parseQ (toks : List String) (fuel : Nat) : Option (List QOp) :=
+  match fuel with
+  | 0 => none
+  | fuel + 1 =>
+    let h := hexNat
+    match toks with
+    | [] => some []
+    | "ap" :: a :: b :: r | "mp" :: a :: b :: r | "tp" :: a :: b :: r => (parseQ r fuel).map (QOp.addProd (h a) (h b) :: ·)
+    | "sp" :: a :: b :: r | "ms" :: a :: b :: r | "ts" :: a :: b :: r => (parseQ r fuel).map (QOp.subProd (h a) (h b) :: ·)
+    | "a1" :: a :: r => (parseQ r fuel).map (QOp.addOne (h a) :: ·)
+    | "s1" :: a :: r => (parseQ r fuel).map (QOp.subOne (h a) :: ·)
+    | "ap2" :: x :: a :: b :: r => (parseQ r fuel).map ([QOp.addProd (h x) (h a), QOp.addProd (h x) (h b)] ++ ·)
+    | "sp2" :: x :: a :: b :: r => (parseQ r fuel).map ([QOp.subProd (h x) (h a), QOp.subProd (h x) (h b)] ++ ·)
+    | "ap3" :: x :: a :: b :: c :: r => (parseQ r fuel).map ([QOp.addProd (h x) (h a), QOp.addProd (h x) (h b), QOp.addProd (h x) (h c)] ++ ·)
+    | "ap22" :: a :: b :: c :: d :: r =>
+      (parseQ r fuel).map ([QOp.addProd (h a) (h c), QOp.addProd (h a) (h d), QOp.addProd (h b) (h c), QOp.addProd (h b) (h d)] ++ ·)
+    | "sp22" :: a :: b :: c :: d :: r =>
+      (parseQ r fuel).map ([QOp.subProd (h a) (h c), QOp.subProd (h a) (h d), QOp.subProd (h b) (h c), QOp.subProd (h b) (h d)] ++ ·)
+    | "apa" :: x :: n :: r =>
+      let k := h n
+      if r.length < k then none else (parseQ (r.drop k) fuel).map ((r.take k).map (fun p => QOp.addProd (h x) (h p)) ++ ·)
+    | "spa" :: x :: n :: r =>
+      let k := h n
+      if r.length < k then none else (parseQ (r.drop k) fuel).map ((r.take k).map (fun p => QOp.subProd (h x) (h p)) ++ ·)
+    | "fp" :: a :: r => (parseQ r fuel).map ([QOp.clear, QOp.addOne (h a)] ++ ·)
+    | "neg" :: r => (parseQ r fuel).map (QOp.neg :: ·)
+    | "clear" :: r => (parseQ r fuel).map (QOp.clear :: ·)
+    | "rt" :: r => parseQ r fuel
+    | _ => none
+
+/-- run a history on the abstract state; `none` if some partial sum leaves the quire's range (outside C04) -/
+def runQ (qf : QFmt) (ops : List QOp) : Option (Option Rat) :=
+  ops.foldl (fun st op => match st with
+    | none => none
+    | some s => let s' := qStep qf s op; if qInRange qf s' then some s' else none) (some (some 0))
+
+def expectQ (qf : QFmt) (s : Option Rat) : String :=
+  let hexw := qf.w / 4
+  let tp := qToPosit qf s
+  let z := match s with | some x => x == 0 | none => false
+  let n := s.isNone
+  -- residual split: p1 = round(s), p2 = round(s - p1), p3 = round(s - p1 - p2), subtractions exact
+  let sub (s : Option Rat) (p : Nat) : Option Rat := match s, toRat qf.p p with | some x, some y => some (x - y) | _, _ => none
+  let p1 := tp
+  let s1 := sub s p1
+  let p2 := qToPosit qf s1
+  let s2 := sub s1 p2
+  let p3 := qToPosit qf s2
+  s!"{toHex tp} {if z then 1 else 0} {if n then 1 else 0} {toHexW (qBits qf s) hexw} {toHex p1},{toHex p2} {toHex p1},{toHex p2},{toHex p3}"
+
+def handleQ (qf : QFmt) (toks : List String) : Option (Option String) :=
+  match parseQ toks (toks.length + 1) with
+  | none => none
+  | some ops => match runQ qf ops with
+    | none => some none
+    | some s => some (some (expectQ qf s))
+
+def handle (ws : List String) : Option (Option String) :=
+  match ws with
+  | "q8" :: "hist" :: toks => handleQ q8 toks
+  | "q16" :: "hist" :: toks => handleQ q16 toks
+  | "q32" :: "hist" :: toks => handleQ q32 toks
+  | _ => none
 end SpecExtra
